@@ -42,7 +42,12 @@ def _build(dom, facts, fluents, reverse=False):
     fl = sorted(fluents.items())
     if reverse:
         fs, fl = list(reversed(fs)), list(reversed(fl))
-    return RA.make_state(dom, fs, dict(fl))
+    st = RA.make_state(dom, fs, dict(fl))
+    if reverse:
+        # states reached through delete effects keep empty buckets: they carry no fact
+        for name, lifted in dom.predicates.items():
+            st.state_predicates.setdefault(lifted.untyped_representation, set())
+    return st
 
 
 def _collides(fluents):
